@@ -192,6 +192,27 @@ def run(ctx):
             got3 = apply(ctx, op, s3, FLAGS[ops.draw(4)], "Operator.apply (re-used operator, first state again)", [])
             compare(ctx, got3, want, "Operator.apply (re-used operator, first state again)", "", W, S, call)
             ctx.probes["reuse_checked"] += 1
+            # history: the problem gains an object (added in place to the table the operator was given) and the used
+            # operator is applied once more; quantified effects and conditions range over the objects as they are NOW
+            if ops.chance(1, 3):
+                types = [ty for ty in W.D["types"] if ty not in W.D.get("implicit_types", ())]
+                ty = ops.pick(types) if types else None
+                objs2 = {**W.objs, "znew": ty} if ty else None
+                try:
+                    grown = ty is not None and interp.applicable(S, act, args, W.D, objs2)
+                    want4 = interp.successor(S, act, args, W.D, objs2)[0] if grown else None
+                except (interp.Inconsistent, interp.Undefined):
+                    grown = False
+                if grown:
+                    from pddl_plus_parser.models import PDDLObject
+                    p.objects["znew"] = PDDLObject(name="znew", type=d.types[ty])
+                    s4 = lib(ctx, W, S, "-grown")[2]
+                    got4 = apply(ctx, op, s4, FLAGS[0], "Operator.apply (re-used operator, an object was added)", [])
+                    compare(ctx, got4, want4, "Operator.apply (re-used operator, an object was added)",
+                            f"znew - {ty}", W, S, call)
+                    ctx.probes["reuse_after_object_added"] += 1
+                    if not interp.state_eq(want4, want):
+                        ctx.probes["added_object_changes_successor"] += 1
     ctx.probes[f"distinct_group_orders_{min(len(orders), 4)}"] += 1
     ctx.steps += K
 
